@@ -117,6 +117,13 @@ static q128 quantum(const ref::CartEll<q128>& Q, double lat, double lon, double 
 // names the monitor); every matrix monitor that fails because hypot(X,Y) is sub-normal reports under matrix:C07/reverse/*/subnormal-R.
 static const char* const ZONE_KEY = "oracle:C07/reverse/forward-image/subnormal-squares";
 static std::string zkey(const std::string& general, bool uzone) { return uzone ? std::string(ZONE_KEY) : general; }
+// key for a Reverse-based LocalCartesian monitor: zone key, strongly-prolate key (f < -1.5 and error within the explained
+// (b/a)^2 amplification), or the monitor's own general key
+static std::string lkey(const std::string& general, bool uzone, const Ell& E, double err, double tol) {
+  if (uzone) return ZONE_KEY;
+  if (E.f < -1.5 && err <= tol * (1 - E.f) * (1 - E.f) / 4) return "oracle:C07/reverse/forward-image/strongly-prolate";
+  return general;
+}
 static bool underflow_zone(const Ell& E, double R, double Z) {
   return (R != 0 && R < 1e-140 * E.a) || (Z != 0 && std::fabs(Z) < 1e-140 * E.a);
 }
@@ -538,7 +545,7 @@ static void sec_local(Ctx& c, uint64_t idx) {
         q128 B[3]; ref::cart_forward<q128>(Q, l1, o1, h1, B);
         double eb = (double)(qmax(ref::dist3c(B, gq[i]) - K_Q * quantum(Q, l1, o1, h1), 0) / (EPS * scl[i]));
         c.obs("local: Reverse(Forward(p)) position error beyond K_Q ulp of (lat,lon,h) [eps*max(|r|,|r0|,a,b)] " + (uz ? std::string("subnormal-squares zone") : shape), eb, w);
-        if (!(eb <= K_LOC + K_REV)) c.viol(zkey("rigid:C07/local/reverse-of-forward", uz), cls, J(w).str("monitor", "local/reverse-of-forward").f("lat1", l1).f("lon1", o1).f("h1", h1).f("err_eps", eb));
+        if (!(eb <= K_LOC + K_REV)) c.viol(lkey("rigid:C07/local/reverse-of-forward", uz, E, eb, K_LOC + K_REV), cls, J(w).str("monitor", "local/reverse-of-forward").f("lat1", l1).f("lon1", o1).f("h1", h1).f("err_eps", eb));
         q128 e[3], n[3], u[3], e2[3], n2[3], u2[3]; ref::cart_enu<q128>(Q, l1, o1, e, n, u); mat_local_expect(F0, e, n, u, e2, n2, u2);
         bool Mw = true; for (double m : M2) if (vh::is_sentinel(m, 4)) Mw = false;
         const double Rr = std::hypot(gd[0], gd[1]); const bool subR = Rr != 0 && Rr < 4 * std::numeric_limits<double>::min();
@@ -569,13 +576,13 @@ static void sec_local(Ctx& c, uint64_t idx) {
     const q128 qz = K_Q * quantum(Q, l1, o1, h1);
     double er = (double)(qmax(ref::dist3c(got, want) - qz, 0) / (EPS * sc));
     c.obs(std::string("local: Reverse image vs r0 + x e + y n + z u beyond K_Q ulp of (lat,lon,h) [eps*max(|r|,|r0|,a,b)] ") + (uz ? "subnormal-squares zone" : i < 3 ? "axes" : "general"), er, w);
-    if (!(er <= K_LOC + K_REV)) c.viol(zkey(i < 3 ? "rigid:C07/local/axes" : "rigid:C07/local/reverse-not-rigid-motion", uz), cls, J(w).str("monitor", "local/reverse-image").f("err_eps", er));
+    if (!(er <= K_LOC + K_REV)) c.viol(lkey(i < 3 ? "rigid:C07/local/axes" : "rigid:C07/local/reverse-not-rigid-motion", uz, E, er, K_LOC + K_REV), cls, J(w).str("monitor", "local/reverse-image").f("err_eps", er));
     double x2, y2, z2; LC.Forward(l1, o1, h1, x2, y2, z2);
     // Forward's own deviation from the closed form at (l1,o1,h1) is not LocalCartesian's: measure it and allow for it
     double gl[3]; G.Forward(l1, o1, h1, gl[0], gl[1], gl[2]); q128 glq[3] = {gl[0], gl[1], gl[2]}; const q128 fd = ref::dist3c(glq, got);
     double ef = (double)(qmax(hypotq(hypotq(x2 - (q128)x, y2 - (q128)y), z2 - (q128)z) - qz - fd, 0) / (EPS * sc));
     c.obs(std::string("local: Forward(Reverse(x)) - x beyond K_Q ulp of (lat,lon,h) [eps*max(|r|,|r0|,a,b)]") + (uz ? " subnormal-squares zone" : ""), ef, w);
-    if (!(ef <= 2 * K_LOC + K_REV)) c.viol(zkey("rigid:C07/local/forward-of-reverse", uz), cls, J(w).str("monitor", "local/forward-of-reverse").f("x2", x2).f("y2", y2).f("z2", z2).f("err_eps", ef));
+    if (!(ef <= 2 * K_LOC + K_REV)) c.viol(lkey("rigid:C07/local/forward-of-reverse", uz, E, ef, 2 * K_LOC + K_REV), cls, J(w).str("monitor", "local/forward-of-reverse").f("x2", x2).f("y2", y2).f("z2", z2).f("err_eps", ef));
   }
   // Reset to another origin == a fresh object (history independence), bit-exactly
   if (!dflt) {
